@@ -106,8 +106,8 @@ def iluk_readmitted(rows, k):
 # ------------------------------------------------------------------ case generation
 def matrices(r, tier):
     """yield (family, n, rows) ; all with sorted rows and full non-zero diagonal"""
-    N = 28 if tier == "quick" else 160
-    big = 14 if tier == "quick" else 30
+    N = 90 if tier == "quick" else 320
+    big = 22 if tier == "quick" else 32
     for it in range(N):
         n = r.choice([1, 2, 3, 4, 5, 6, 8, 10]) if it % 7 else r.randint(10, big)
         fam = r.choice(["spd", "spd", "nonsym", "nonsym", "tridiag", "arrow", "pattern", "pattern_sym", "nodom"])
